@@ -81,15 +81,23 @@ impl RewindableAtomic for AtomicUsize {
 fn claim_before(cursor: &impl RewindableAtomic, limit: usize) -> Option<usize> {
     loop {
         let current = cursor.load(Ordering::Acquire);
+        #[cfg(grevm_verif)]
+        crate::verif::p2("cur_load", current as i64, limit as i64);
         if current >= limit {
             return None;
         }
+        #[cfg(grevm_verif)]
+        let verif_cas = |ok: bool| crate::verif::p2("cur_cas", ok as i64, current as i64);
         if cursor
             .compare_exchange_weak(current, current + 1, Ordering::AcqRel, Ordering::Acquire)
             .is_ok()
         {
+            #[cfg(grevm_verif)]
+            verif_cas(true);
             return Some(current);
         }
+        #[cfg(grevm_verif)]
+        verif_cas(false);
     }
 }
 
@@ -299,5 +307,31 @@ mod tests {
                 );
             }
         });
+    }
+}
+
+/// Differential-driver access (see `crate::verif`).
+#[cfg(grevm_verif)]
+pub mod verif_access {
+    #![allow(missing_docs, missing_debug_implementations, unreachable_pub)]
+    pub(crate) fn reader(cursor: &std::sync::atomic::AtomicUsize) -> super::PublishedCursorReader<'_> {
+        super::PublishedCursorReader(cursor)
+    }
+    pub struct CursorV(super::RewindableCursor);
+    impl CursorV {
+        pub fn new(value: usize) -> Self {
+            Self(super::RewindableCursor::new(value))
+        }
+        pub fn get(&self) -> usize {
+            self.0.get()
+        }
+        pub fn claim_before(&self, limit: usize) -> Option<usize> {
+            self.0.claim_before(limit)
+        }
+        pub fn rewind(&self, value: usize) -> usize {
+            let previous = self.0.rewind(value);
+            crate::verif::p2("cur_rewind", value as i64, previous as i64);
+            previous
+        }
     }
 }
